@@ -11,6 +11,8 @@ from .flow import Engine
 #                 bit1 = F-M1 repaired (clone of a closed sender is closed).  0 = the code as it is.
 FIXFLAGS = int(os.environ.get("VERIF_MPSC_FIXFLAGS", "0"))   # 3 = run against a tree with both repairs applied
 
+FIX_CLONE = bool(FIXFLAGS & 2)     # API semantics after the F-M1 repair: a clone of a closed sender is closed
+
 ARITY = {"ts": 3, "sd": 3, "tr": 2, "rc": 2, "rt": 2, "cl": 2, "dr": 2, "cn": 3, "tos": 2, "toa": 2,
          "ln": 2, "ie": 2, "if": 2, "cp": 2, "ic": 2, "ms": 4, "mr": 3, "pl": 3, "df": 2, "pn": 3,
          "trb": 3, "rcb": 3, "mrb": 4}
@@ -122,8 +124,10 @@ class Sim:
         elif t == "cn":
             h, h2 = int(op[1]), int(op[2])
             if h in H and H[h]["tx"] and h2 not in H:
-                H[h2] = dict(tx=True, a=H[h]["a"], closed=False, reg=False)
-                self.sc += 1
+                cl = FIX_CLONE and H[h]["closed"]
+                H[h2] = dict(tx=True, a=H[h]["a"], closed=cl, reg=False)
+                if not cl:
+                    self.sc += 1
         elif t in ("tos", "toa"):
             h = int(op[1])
             r = H.get(h)
@@ -403,7 +407,7 @@ class MpscbEngine(Engine):
         for op, o in zip(ops, outs):
             if not m.feed(op, o):
                 break
-        if len(outs) < len(ops) and not m.hits:
+        if len(outs) < len(ops) and not m.hits and "HANG" not in out:
             m.hit("bad-output", "only %d outputs for %d ops" % (len(outs), len(ops)))
         if len(outs) == len(ops):
             m.finish()
@@ -552,12 +556,19 @@ class Mon:
             self.hit("bad-output", "empty output for %s" % " ".join(op))
             return False
         if res[0] in ("PANIC", "HANG", "SKIPPED-AFTER-HANG") or res[0].startswith("DRIVER"):
+            if res[0] == "SKIPPED-AFTER-HANG" or (res[0] == "HANG" and self.blocks_by_design(op)):
+                return False      # abandoned shard / a blocking form issued where it has to wait (shrinker artefact)
             self.hit("panic" if res[0] == "PANIC" else "hang", "%s -> %s" % (" ".join(op), o))
             return False
         for w in wk:
             self.wakes[w] += 1
         polled = None
-        if res[0] != "bad":
+        if res[0] == "WOULDBLOCK":
+            # the driver did not execute a blocking form that (by the public observers) has to wait
+            if not self.blocks_by_design(op):
+                self.hit("C03:observer-wrong" if t[0] == "s" else "C01:empty-with-buffered",
+                         "%s refused as blocking, but by the history it would complete" % " ".join(op))
+        elif res[0] != "bad":
             polled = self.apply(op, res)
         for v in dr:
             self.drops[v] += 1
@@ -572,6 +583,20 @@ class Mon:
         # C06: every pending future whose operation is possible must have been woken since its poll
         self.check_wakes(polled)
         return True
+
+    def blocks_by_design(self, op):
+        """would this blocking form legitimately wait, by the monitor's own bookkeeping?"""
+        t = op[0]
+        r = self.H.get(int(op[1])) if len(op) > 1 else None
+        if r is None:
+            return False
+        if t in ("sd", "sdb", "sdm"):
+            k = 1 if t == "sd" else int(op[2])
+            dead = r["closed"] or self.rx_gone
+            return r["tx"] and not dead and len(self.fifo) + self.unpub + k > self.cap
+        if t in ("rc", "rcb"):
+            return (not r["tx"]) and not r["closed"] and not self.fifo and self.open_tx > 0
+        return False
 
     def apply(self, op, res):
         t = op[0]
@@ -626,10 +651,12 @@ class Mon:
             del H[h]
         elif t == "cn":
             h, h2 = int(op[1]), int(op[2])
-            if H[h]["closed"] and self.open_tx == 0:
+            cl = FIX_CLONE and H[h]["closed"]
+            if H[h]["closed"] and self.open_tx == 0 and not cl:
                 self.recloned = True
-            H[h2] = dict(tx=True, a=H[h]["a"], closed=False, disc=False)
-            self.open_tx += 1
+            H[h2] = dict(tx=True, a=H[h]["a"], closed=cl, disc=False)
+            if not cl:
+                self.open_tx += 1
         elif t in ("tos", "toa"):
             h = int(op[1])
             H[h]["a"] = t == "toa"
